@@ -20,7 +20,9 @@ import (
 // SpaceLikeRunes: characters that LOOK like blanks (or like nothing) but are ordinary name
 // characters everywhere in a path: in dot notation, between quotes, after `..`, in filters.
 var SpaceLikeRunes = []rune{0x3000, 0x00A0, 0x0085, 0x1680, 0x2000, 0x2001, 0x2002, 0x2003, 0x2004, 0x2005, 0x2006, 0x2007,
-	0x2008, 0x2009, 0x200A, 0x200B, 0x2028, 0x2029, 0x202F, 0x205F, 0xFEFF, 0x180E}
+	0x2008, 0x2009, 0x200A, 0x200B, 0x2028, 0x2029, 0x202F, 0x205F, 0xFEFF, 0x180E,
+	// zero-width / invisible format characters (round 8)
+	0x2060, 0x200C, 0x200D, 0x00AD, 0x034F, 0x061C, 0x200B, 0x2060}
 
 func spaceLikeRune(r *Rng) rune { return SpaceLikeRunes[r.Intn(len(SpaceLikeRunes))] }
 
